@@ -21,7 +21,10 @@
 #define AVAIL_OUT 3
 #endif
 #define PRE (32768 + 258)
-#define REFCAP 600
+/* The reference gets room for one byte more than the window: enough to tell "fits" from "does not
+ * fit" (then the only correct answer is OUT_OVERFLOW with the window filled) while keeping its
+ * match-copy loop short (a 600-byte capacity made symbolic execution run > 15 min for N=1). */
+#define REFCAP (AVAIL_OUT + 1)
 
 struct inputs {
         uint8_t in[N];
@@ -45,7 +48,6 @@ harness(void)
         r.in = I.in, r.in_bits = N * 8, r.pos = 0, r.out = ref_out, r.out_cap = REFCAP, r.out_len = 0;
         r.dict = 0, r.dict_len = 0, r.eof = 0, r.max_dist = 0, r.nmatches = 0;
         int rs = rfc_codes(&r, 1, 0, 0);
-        VASSERT(rs != RFC_OUTFULL, "oracle sanity: reference capacity suffices for N input bytes");
 #ifdef VALID_ONLY
         VASSUME(rs == RFC_OK);
 #endif
@@ -96,6 +98,9 @@ harness(void)
                         VASSERT(ret == ISAL_OUT_OVERFLOW && st.total_out == AVAIL_OUT,
                                 "valid block that does not fit: OUT_OVERFLOW with the window filled");
         }
+        if (rs == RFC_OUTFULL) /* more than AVAIL_OUT bytes precede any error */
+                VASSERT(ret == ISAL_OUT_OVERFLOW && st.total_out == AVAIL_OUT,
+                        "output larger than the window: OUT_OVERFLOW with the window filled");
         /* ---- documented error classes ---- */
         if (rs == RFC_BAD_SYMBOL) { /* lit/len 286,287 or distance code 30,31 */
                 if (r.out_len <= AVAIL_OUT)
